@@ -782,7 +782,7 @@ pub fn run() {
         });
     }
     c.extra("tiny_exhaustive", json!({"max_spiders": max_tiny, "space": tiny_total, "completed": !c.out_of_time(), "note": "shapes exhaustive; phases and input/output roles random"}));
-    let (ms, n) = t.pick((9usize, 3000usize), (12usize, 1_500_000usize));
+    let (ms, n) = t.pick((9usize, 9000usize), (12usize, 1_500_000usize));
     par_cases("random-no-isolated", n, move |r, i| {
         let d = gen_desc(r, ms, false);
         check_desc("random-no-isolated", i, &d, r);
